@@ -63,6 +63,10 @@ type phase struct {
 	writes []lib.CsWrite
 	gap    int // ms to wait after the previous compaction before this one
 	back   int // compaction revision = committed - back
+	// window: a client Update of this key lands between the scan's snapshot and the removal of its index
+	// (run from the engine wrapper just before the first engine delete that targets the key)
+	window string
+	burst  int // number of additional back-to-back compactions right after this one
 }
 
 type scanPlan struct {
@@ -89,6 +93,20 @@ func genScanPlan(r *lib.Rand, engine string, ttl int, corpus int) scanPlan {
 			{gap: ttl + 150, back: 3}, {gap: ttl + 200}}
 		return p
 	}
+	switch corpus {
+	case 3: // an Update of an expiring Event lands between the snapshot and the compare-and-delete of its index
+		p.pre = []lib.CsWrite{mk("create", "/registry/events/default/e1"), mk("create", "/registry/events/kube-system/e2"), mk("create", "/registry/pods/a")}
+		p.phases = []phase{{gap: 0}, {gap: ttl + 150, window: "/registry/events/default/e1"}, {gap: ttl + 150}}
+		return p
+	case 4: // many marks inside one TTL window: each mark keeps its own time
+		p.pre = []lib.CsWrite{mk("create", "/registry/events/default/e1"), mk("create", "/registry/pods/a")}
+		// ttl = 600: burst of 71 marks within a few ms, a new Event and one compaction 350 ms later (burst marks still young),
+		// a compaction 410 ms after that (burst marks >= 700 ms old: e1 goes; the mark after e3 is 410 ms old: e3 stays),
+		// a last one 720 ms later (now e3 goes)
+		p.phases = []phase{{gap: 0, burst: 70 + r.Intn(30)}, {gap: ttl * 350 / 600, writes: []lib.CsWrite{mk("create", "/registry/events/default/e3")}},
+			{gap: ttl * 410 / 600}, {gap: ttl * 720 / 600}}
+		return p
+	}
 	n := 3 + r.Intn(6)
 	for i := 0; i < n; i++ {
 		k := keyPool[r.Intn(len(keyPool))]
@@ -106,6 +124,12 @@ func genScanPlan(r *lib.Rand, engine string, ttl int, corpus int) scanPlan {
 		}
 		if r.Chance(1, 4) {
 			ph.back = 1 + r.Intn(4)
+		}
+		if i > 0 && r.Chance(1, 5) {
+			ph.window = keyPool[r.Intn(4)]
+		}
+		if r.Chance(1, 10) {
+			ph.burst = 20 + r.Intn(60)
 		}
 		for j := r.Intn(3); j > 0; j-- {
 			k := keyPool[r.Intn(len(keyPool))]
@@ -143,12 +167,29 @@ func runScan(p scanPlan, scratch string) (o out) {
 	var eng storage.KvStorage
 	var closer func()
 	var err error
+	var scanEng storage.KvStorage
+	var windowHook func(kind string, key []byte) error
+	hook := func(kind string, key []byte) error {
+		if h := windowHook; h != nil {
+			return h(kind, key)
+		}
+		return nil
+	}
 	if p.engine == lib.EngTiKV {
-		eng, closer, err = lib.NewEngine(lib.EngTiKV, scratch)
-	} else {
+		var inner storage.KvStorage
+		inner, closer, err = lib.NewEngine(lib.EngTiKV, scratch)
+		eng = &lib.Wrap{KvStorage: inner, Before: hook}
+	} else if p.engine == "memkv-native-ttl" {
+		// writes go through a TTL-dropping wrapper (so that memkv's own timers stay out of the picture), the scanner
+		// sees the engine itself, which advertises TTL support: scanner expiry must stay off
 		var inner storage.KvStorage
 		inner, closer, err = lib.NewEngine(lib.EngMem, scratch)
 		eng = &lib.Wrap{KvStorage: inner, NoTTL: true}
+		scanEng = &lib.Wrap{KvStorage: inner, Before: hook}
+	} else {
+		var inner storage.KvStorage
+		inner, closer, err = lib.NewEngine(lib.EngMem, scratch)
+		eng = &lib.Wrap{KvStorage: inner, NoTTL: true, Before: hook}
 	}
 	if err != nil {
 		o.fail = err.Error()
@@ -162,8 +203,11 @@ func runScan(p scanPlan, scratch string) (o out) {
 	}
 	defer be.Retire()
 	ttl := time.Duration(p.ttl) * time.Millisecond
-	sc := lib.CsScanner(eng, prefix, ttl)
-	supports := eng.SupportTTL()
+	if scanEng == nil {
+		scanEng = eng
+	}
+	sc := lib.CsScanner(scanEng, prefix, ttl)
+	supports := scanEng.SupportTTL()
 
 	wctx, wcancel := context.WithCancel(context.Background())
 	defer wcancel()
@@ -236,25 +280,61 @@ func runScan(p scanPlan, scratch string) (o out) {
 				time.Sleep(d)
 			}
 		}
-		R := be.B.GetCurrentRevision()
-		if uint64(ph.back) < R-initRev {
-			R -= uint64(ph.back)
+		for b := 0; b <= ph.burst; b++ {
+			R := be.B.GetCurrentRevision()
+			if uint64(ph.back) < R-initRev {
+				R -= uint64(ph.back)
+			}
+			// engine delete calls of this pass, and the writer request run inside the window
+			var ocs []string
+			fired := false
+			if ph.window != "" && b == 0 {
+				wkey := []byte(ph.window)
+				windowHook = func(kind string, key []byte) error {
+					if kind != "del" && kind != "delcur" {
+						return nil
+					}
+					adds := "[]"
+					if uk, _, derr := cd.Decode(key); derr == nil && bytes.Equal(uk, wkey) && !fired {
+						fired = true
+						w := lib.CsWrite{Op: "update", Key: wkey, Val: []byte("w")}
+						if kv, ok, _ := be.Get(wkey, 0); ok {
+							w.Rev = kv.Rev
+						}
+						class, hdr, synced := be.Do(w)
+						if !synced {
+							o.fail = "committed revision stalled (update in the expiry window)"
+						}
+						if class == "ok" {
+							okWrites++
+							adds = lib.List([]string{lib.App("RIdx", tab.B(wkey), lib.N(hdr), "false"), lib.App("RVer", tab.B(wkey), lib.N(hdr), lib.Bytes(w.Val))})
+						}
+						o.outcomes = append(o.outcomes, "window-update-"+class)
+						js = append(js, map[string]interface{}{"op": "update inside the pass, before engine " + kind, "key": ph.window, "rev": w.Rev, "res": class, "hdr": hdr})
+					}
+					ocs = append(ocs, lib.Pair(adds, "OOk"))
+					return nil
+				}
+			}
+			a := time.Since(t0)
+			last = time.Now()
+			sc.Compact(context.Background(), enc(prefix+"/"), enc(prefix+"0"), R)
+			bb := time.Since(t0)
+			windowHook = nil
+			spans = append(spans, span{a, bb})
+			now, err := sortedDecoded(eng)
+			if err != nil {
+				o.fail = err.Error()
+				return
+			}
+			d, rm := lib.CsDiff(prev, now, tab)
+			expired += len(rm)
+			steps = append(steps, lib.App("SCompact", lib.N(uint64(a.Milliseconds())), lib.N(R), lib.Str(prefix+"/"), lib.Str(prefix+"0"), lib.List(ocs), d))
+			if b == 0 || len(rm) > 0 {
+				js = append(js, map[string]interface{}{"op": "scanner.Compact", "rev": R, "at_ms": a.Milliseconds(), "took_ms": (bb - a).Milliseconds(), "removed_positions": rm, "burst_of": ph.burst + 1})
+			}
+			prev = now
 		}
-		a := time.Since(t0)
-		last = time.Now()
-		sc.Compact(context.Background(), enc(prefix+"/"), enc(prefix+"0"), R)
-		b := time.Since(t0)
-		spans = append(spans, span{a, b})
-		now, err := sortedDecoded(eng)
-		if err != nil {
-			o.fail = err.Error()
-			return
-		}
-		d, rm := lib.CsDiff(prev, now, tab)
-		expired += len(rm)
-		steps = append(steps, lib.App("SCompact", lib.N(uint64(a.Milliseconds())), lib.N(R), lib.Str(prefix+"/"), lib.Str(prefix+"0"), d))
-		js = append(js, map[string]interface{}{"op": "scanner.Compact", "rev": R, "at_ms": a.Milliseconds(), "took_ms": (b - a).Milliseconds(), "removed_positions": rm})
-		prev = now
 	}
 	// timing: the age of mark i at call j lies in [a_j - b_i, b_j - a_i]; both ends must be on the same side of the
 	// TTL, 30 ms away from it, and so must the model's age a_j - a_i (ms, truncated)
@@ -279,7 +359,7 @@ func runScan(p scanPlan, scratch string) (o out) {
 		o.skipped = "watch events not delivered in time"
 		return
 	}
-	// per key: Get(latest), then Create
+	// per key: Get(latest); if present, Update from that revision; then Create
 	var fin []string
 	for _, k := range keyPool {
 		kv, ok, isErr := be.Get([]byte(k), 0)
@@ -287,16 +367,23 @@ func runScan(p scanPlan, scratch string) (o out) {
 			o.fail = "get failed"
 			return
 		}
-		got := "None"
+		got, upd := "None", "None"
 		if ok {
 			got = lib.Some(lib.Pair(lib.N(kv.Rev), lib.Bytes(kv.V)))
+			class, _, synced := be.Do(lib.CsWrite{Op: "update", Key: []byte(k), Val: []byte("y"), Rev: kv.Rev})
+			if !synced {
+				o.fail = "committed revision stalled"
+				return
+			}
+			upd = lib.Some(lib.CsWresCoq(class))
+			o.outcomes = append(o.outcomes, "final-update-"+class)
 		}
 		class, _, synced := be.Do(lib.CsWrite{Op: "create", Key: []byte(k), Val: []byte("x")})
 		if !synced {
 			o.fail = "committed revision stalled"
 			return
 		}
-		fin = append(fin, "("+tab.B([]byte(k))+", "+got+", "+lib.CsWresCoq(class)+")")
+		fin = append(fin, "("+tab.B([]byte(k))+", "+got+", "+upd+", "+lib.CsWresCoq(class)+")")
 		o.outcomes = append(o.outcomes, "recreate-"+class)
 	}
 	o.coq = lib.App("KScan", lib.Str(prefix), lib.N(uint64(p.ttl)), lib.Bool(supports), lib.CsRecsCoq(pre, tab), lib.List(steps), lib.List(fin), lib.N(uint64(extra)))
@@ -446,16 +533,31 @@ func main() {
 	}
 	const ttl = 300
 	var jobs []func() out
-	for _, e := range []string{lib.EngMem, lib.EngTiKV} {
-		for c := 1; c <= 2; c++ {
-			p := genScanPlan(rnd, e, ttl, c)
+	for _, e := range []string{lib.EngMem, lib.EngTiKV, "memkv-native-ttl"} {
+		for c := 1; c <= 4; c++ {
+			t := ttl
+			if c == 4 {
+				t = 600
+			}
+			p := genScanPlan(rnd, e, t, c)
 			jobs = append(jobs, func() out { return runScan(p, args.Scratch) })
+		}
+	}
+	if args.Tier != "quick" { // bursts of >= 70 marks under TTLs of seconds
+		for _, e := range []string{lib.EngMem, lib.EngTiKV} {
+			for _, t := range []int{2000, 3000} {
+				p := genScanPlan(rnd, e, t, 4)
+				jobs = append(jobs, func() out { return runScan(p, args.Scratch) })
+			}
 		}
 	}
 	for i := 0; i < nScan; i++ {
 		e := lib.EngMem
 		if i%4 == 3 {
 			e = lib.EngTiKV
+		}
+		if i%11 == 10 {
+			e = "memkv-native-ttl"
 		}
 		var p scanPlan
 		for {
@@ -523,7 +625,7 @@ func main() {
 	if skipped*3 > len(outs) {
 		w.Fail(lib.ImplFailure{CaseID: -1, What: fmt.Sprintf("generator degenerate: %d of %d cases had indeterminate timing", skipped, len(outs))})
 	}
-	if err := w.Finish("scanner cases: random writes over 9 keys (Event keys, look-alikes such as /registry/pods/events/p1, /registry/eventsx/a, /registry/events, non-event keys, a key outside the prefix), 3-5 scanner.Compact calls with real sleeps chosen so that every (mark, later call) pair is >= 100 ms away from the 300 ms TTL, timestamps recorded around every call, cases with a measured age within 30 ms of the TTL skipped as indeterminate (after 3 tries); TTL-choice cases: one Create per pool key with the engine's ttl arguments recorded; engine-TTL cases: scripted create/update/delete/re-create under a 2 s TTL on memkv and Badger with dumps >= 250 ms away from every expiry instant; distinct = SHA-256 of the Coq case; non-trivial (scanner cases) = a compaction removed at least one record"); err != nil {
+	if err := w.Finish("scanner cases (scripted: substring look-alikes; update/delete before expiry with a smaller later compaction revision; a client Update landing between the scan's snapshot and the compare-and-delete of the index; a burst of >= 70 marks inside one TTL window followed by a pause, a new Event, and compactions just after the burst's TTL) and random ones: writes over 9 keys (Event keys, look-alikes such as /registry/pods/events/p1, /registry/eventsx/a, /registry/events, non-event keys, a key outside the prefix), 3-5 scanner.Compact calls with real sleeps chosen so that every (mark, later call) pair is >= 100 ms away from the 300 ms TTL, timestamps recorded around every call, cases with a measured age within 30 ms of the TTL skipped as indeterminate (after 3 tries); TTL-choice cases: one Create per pool key with the engine's ttl arguments recorded; engine-TTL cases: scripted create/update/delete/re-create under a 2 s TTL on memkv and Badger with dumps >= 250 ms away from every expiry instant; distinct = SHA-256 of the Coq case; non-trivial (scanner cases) = a compaction removed at least one record"); err != nil {
 		fmt.Fprintln(os.Stderr, err)
 		os.Exit(2)
 	}
